@@ -139,3 +139,112 @@ def _include_choices(repo):
             "def c06IncludeFallback : String := %s\n"
             "def c06IncludeNotFoundCond : List String := %s" % (lst(reprs), lst(kept), lean_str(fallback), lst(atoms)))
     return {"reprs": reprs, "iterated": kept, "fallback": fallback, "not_found_when": atoms}, lean
+
+
+def _brace_body(src, i):
+    """src[i] == '{': the text between it and its matching brace, and the index behind that brace"""
+    depth, j = 0, i
+    while j < len(src):
+        if src[j] == "{":
+            depth += 1
+        elif src[j] == "}":
+            depth -= 1
+            if depth == 0:
+                return src[i + 1:j], j + 1
+        j += 1
+    raise KeyError("unbalanced braces")
+
+
+def _top_statements(body):
+    """statements at nesting depth 0 of a block: `(text, is_braced_block)`"""
+    out, depth, cur = [], 0, ""
+    for c in body:
+        cur += c
+        if c in "([{":
+            depth += 1
+        elif c in ")]}":
+            depth -= 1
+            if depth == 0 and c == "}" and re.match(r"\s*(if|while|for|loop|match)\b", cur):
+                out.append(cur.strip())
+                cur = ""
+        elif c == ";" and depth == 0:
+            out.append(cur.strip())
+            cur = ""
+    if cur.strip():
+        out.append(cur.strip())
+    return out
+
+
+@item("C06_ACTIVATION_STATE")
+def _activation_state(repo):
+    """What happens to the state of a VM activation (`Executor::eval_impl`, `vm/mod.rs`) and to the
+    fields of `State` (`vm/state.rs`) when the activation switches to the instructions of the parent
+    template (the end-of-instructions arm).  Rows for the activation's locals: (name, is it indexed by
+    the local ids of `state.instructions`?, what the switch does: `reset` = assigned unconditionally
+    at the top level of the arm, `conditional` = assigned only inside a nested block, `taken` =
+    `.take()`n, `carried` = untouched).  Rows for `State`: (field, `retargeted` / `carried`)."""
+    vm = re.sub(r"//.*", "", read(repo, "minijinja/src/vm/mod.rs"))
+    body = fn_body(vm, r"fn eval_impl\s*\(")
+    loop_at = re.search(r"\n\s*loop\s*\{", body)
+    if not loop_at:
+        raise KeyError("eval_impl: main loop")
+    prologue = body[:loop_at.start()]
+    locals_ = ["stack", "pc"] if re.search(r"mut stack: Stack,\s*mut pc: u32", vm) else None
+    if locals_ is None:
+        raise KeyError("eval_impl: parameters")
+    depth = 0
+    for line in prologue.splitlines():
+        if depth == 0:
+            m = re.match(r"\s*let mut (\w+)\b", line)
+            if m and m.group(1) not in locals_:
+                locals_.append(m.group(1))
+        depth += line.count("{") - line.count("}")
+    keyed = set(re.findall(r"get_or_lookup_local\(\s*&mut (\w+)\s*,\s*\*local_id", body))
+    if not keyed:
+        raise KeyError("eval_impl: get_or_lookup_local uses")
+    m = re.search(r"let instr = match state\.instructions\.get\(pc\)\s*\{", body)
+    if not m:
+        raise KeyError("eval_impl: instruction fetch")
+    fetch, _ = _brace_body(body, m.end() - 1)
+    arms = [a for a in re.finditer(r"None\s*=>\s*\{", fetch)]
+    if len(arms) != 1:
+        raise KeyError("eval_impl: end-of-instructions arm")
+    arm, _ = _brace_body(fetch, arms[0].end() - 1)
+    what = {}
+    def note(name, w):
+        # the weakest treatment wins: a conditional assignment is not a reset
+        order = ["conditional", "taken", "reset"]
+        if name not in what or order.index(w) < order.index(what[name]):
+            what[name] = w
+    state_assigned = set()
+    for st in _top_statements(arm):
+        braced = bool(re.match(r"(if|while|for|loop|match)\b", st))
+        for name in re.findall(r"\b(\w+)\.take\(\)", st):
+            note(name, "taken")
+        if braced:
+            for name in re.findall(r"\b(\w+)\s*=[^=]", st):
+                note(name, "conditional")
+            for f in re.findall(r"\bstate\.(\w+)\s*=[^=]", st):
+                state_assigned.add(f)
+            continue
+        a = re.match(r"(state\.)?(\w+)\s*=[^=]", st)
+        if a and a.group(1):
+            state_assigned.add(a.group(2))
+            # nested assignments in the right-hand side (a match with arms) are conditional
+        elif a:
+            note(a.group(2), "reset")
+    rows = [(n, n in keyed, what.get(n, "carried")) for n in locals_]
+    if not keyed <= set(locals_):
+        raise KeyError("eval_impl: an id-indexed cache is not a local of the activation")
+    sf = fn_body(re.sub(r"//.*", "", read(repo, "minijinja/src/vm/state.rs")), r"pub struct State<'template, 'env>\s*\{")
+    fields = re.findall(r"pub\(crate\)\s+(\w+)\s*:", sf)
+    if "instructions" not in fields or "blocks" not in fields:
+        raise KeyError("State fields")
+    srows = [(f, "retargeted" if f in state_assigned else "carried") for f in fields]
+    if not state_assigned <= set(fields):
+        raise KeyError("the parent switch assigns a State field the struct does not have")
+    lean = ("def c06ActivationLocals : List (String × Bool × String) := [%s]\n"
+            "def c06StateAtParentSwitch : List (String × String) := [%s]" % (
+                ", ".join("(%s, %s, %s)" % (lean_str(a), str(b).lower(), lean_str(c)) for a, b, c in rows),
+                ", ".join("(%s, %s)" % (lean_str(a), lean_str(b)) for a, b in srows)))
+    return {"locals": rows, "state": srows}, lean
